@@ -145,19 +145,15 @@ XalanDOMString::resize(
 
     if (theCount != theOldSize)
     {
-        if (theOldSize == 0)
+        if (m_data.empty() == false)
         {
-            // If the string is of 0 length, resize but add an
-            // extra byte for the terminating byte.
-            m_data.resize(theCount + 1, theChar);
+            // If there already is a buffer, put a copy of theChar
+            // where the terminating byte used to be.
+            m_data.back() = theChar;
         }
-        else
-        {
-            // If the string is not of 0 length, resize but
-            // put a copy of theChar where the terminating
-            // byte used to be.
-            m_data.resize(theCount + 1, theChar);
-        }
+
+        // Resize, adding an extra element for the terminating byte.
+        m_data.resize(theCount + 1, theChar);
 
         m_size = theCount;
 
